@@ -9,7 +9,13 @@ prop("C08", pkg="c08",
           "and on EACH of these encodings the truncation family again (cut exactly before the inserted field, <= 32 cuts inside it, the cut exactly after it, the cut that "
           "drops only the final STOP - through Unmarshal and a Decoder - and every proper prefix for each sixth insertion: plain io.EOF only for the empty input), the trailing "
           "bytes, every required field removed in turn, and every field (and non-empty container element type) replaced by another wire type under strict mode; "
-          "or (10%) 1-12 random Reader method calls on random bytes. All library calls run in a supervised worker process under RLIMIT_AS (16 GiB from the driver, "
+          "or (10%) 1-12 random Reader method calls on random bytes. Thorough tier only: a native go fuzzing campaign FuzzThriftDecode(data, sel, proto) of 90 s on 16 "
+          "workers over 20 static target types (all scalar kinds, nested lists/sets/maps, nested and pointer-to structs, the recursive corpus type, embedding chains 1-3 "
+          "levels deep, unions incl. as list/map elements, required/optional/enum fields, id ranges beyond 64 and up to 32767, 70 fields) x 3 protocols, seeded with ~390 "
+          "inputs (valid encodings of two values per target and protocol, their truncations, hostile sizes -1 / -2^31 / 2^24 / 2^31-1, type bytes 0 and 13..16, ids 0, -1, "
+          "32767), with the clauses that apply to arbitrary bytes as in-process oracle (no panic/fault under recover + SetPanicOnFault, TotalAlloc delta <= 64 MiB for "
+          "inputs <= 4 KiB, and for accepted inputs: + trailing byte => error, + an undeclared field before the final STOP => same value); the seed corpus is also run in "
+          "both tiers (TestFuzzSeeds). All library calls run in a supervised worker process under RLIMIT_AS (16 GiB from the driver, "
           "4 GiB self-imposed in the worker); allocation is the runtime.MemStats.TotalAlloc delta, measured per probe group and per call when a group exceeds 64 MiB. "
           "All six defects found (KF-C08-001..006) are repaired in /repo and listed as fixed, so every probe above is generated and their witnesses run as regression "
           "cases; the avoidance of probes that would only re-trigger a defect (negative counts, counts 2^24..2^31-1, binary cut offsets inside fixed-width items) and the "
@@ -19,8 +25,9 @@ prop("C08", pkg="c08",
      quick=dict(shards=16, scale=1, timeout=900),
      thorough=dict(shards=16, scale=8, timeout=3000),
      vlimit_gb=16,
+     fuzz=[("FuzzThriftDecode", 90)],
      technique="property-based testing (rapid) + exhaustive prefix/header-mutation enumeration per generated encoding, validity and metamorphic oracles, "
-               "out-of-process supervision with address-space limit and stall watchdog",
+               "out-of-process supervision with address-space limit and stall watchdog; coverage-guided native go fuzzing (thorough tier) with the oracle inside the target",
      level_text="Exploration: ~17 M decode calls per quick run (~135 M thorough): no panic or fatal fault; every proper prefix of a valid encoding gives errors.Is(err, io.ErrUnexpectedEOF) "
                 "(io.EOF for empty input); negative / oversized counts give an error; TotalAlloc delta <= 64 MiB for inputs <= 4 KiB; undeclared fields of any type and "
                 "nesting leave the decoded value unchanged; trailing bytes, missing required fields (*MissingField) and strict-mode wire type changes (*TypeMismatch) are "
